@@ -514,6 +514,7 @@ type C20Finding struct {
 	Subject  string // family, part of the finding key
 	Spelled  string
 	Resolves string
+	Form     string // "" for f(..)/q.f(..); "-behind-index" when the callee is an index expression or an instantiation
 }
 
 // CheckC20 looks for the call whose callee is spelled like one of the checker's subjects at / around / under
@@ -583,6 +584,18 @@ func CheckC20(p *Pkg, f *File, checker string, d Diag) *C20Finding {
 	}
 	sp, qual, name := calleeSpelling(call.Fun)
 	sub := bySpelling[sp]
+	form := ""
+	for fun := call.Fun; ; {
+		if pe, ok := fun.(*ast.ParenExpr); ok {
+			fun = pe.X
+			continue
+		}
+		switch fun.(type) {
+		case *ast.IndexExpr, *ast.IndexListExpr:
+			form = "-behind-index"
+		}
+		break
+	}
 	// the callee is "real" when it resolves to the universe object or to a function (path, name) that is
 	// itself one of the checker's subjects (e.g. bytes imported under the name strings and a rule about bytes.Replace)
 	real := map[[2]string]bool{}
@@ -601,13 +614,13 @@ func CheckC20(p *Pkg, f *File, checker string, d Diag) *C20Finding {
 				return nil
 			}
 		}
-		return &C20Finding{Subject: sub.Family(), Spelled: sp, Resolves: describeObj(obj)}
+		return &C20Finding{Form: form, Subject: sub.Family(), Spelled: sp, Resolves: describeObj(obj)}
 	}
 	qobj := p.Info.Uses[qual]
 	if pn, ok := qobj.(*types.PkgName); ok && real[[2]string{pn.Imported().Path(), name.Name}] {
 		return nil
 	}
-	return &C20Finding{Subject: sub.Family(), Spelled: sp, Resolves: describeObj(qobj) + " ." + name.Name}
+	return &C20Finding{Form: form, Subject: sub.Family(), Spelled: sp, Resolves: describeObj(qobj) + " ." + name.Name}
 }
 
 // checkMethodSubject: the diagnostic sits at/in a call x.Name(...) where Name is spelled like a function of the
